@@ -243,12 +243,12 @@ pub(crate) fn unit(
                         ));
                     }
 
-                    last = Some(name);
+                    last = Some((name, prefix));
                 }
             }
             OP_POWER => {
                 let (kind, span) = match (last.take(), nodes.next_node()) {
-                    (Some(last), Some(node)) if *node.value() == NUMBER => {
+                    (Some((last, prefix)), Some(node)) if *node.value() == NUMBER => {
                         let span = node.span();
 
                         let power = match str::parse::<i32>(&source[span.range()]) {
@@ -256,7 +256,14 @@ pub(crate) fn unit(
                             Err(error) => return Err(Error::new(*span, BadNumber { error })),
                         };
 
-                        compound.update_power(last, power * current);
+                        // The power applies to the unit it follows, which has
+                        // already been counted once: `m*m^2` is `m³`.
+                        let power = match power.checked_sub(1).and_then(|p| p.checked_mul(current)) {
+                            Some(power) => power,
+                            None => return Err(Error::new(*span, IllegalPowerRange)),
+                        };
+
+                        let _ = compound.update(last, power, prefix);
                         continue;
                     }
                     (_, Some(node)) => (*node.value(), *node.span()),
